@@ -358,7 +358,8 @@ fn same_month(pz: &Pz, x: i64) -> bool {
     }
 }
 fn rule_branch(a: &Alt, y: i64) -> &'static str {
-    let north = month_of(a.start, y) < month_of(a.end, y);
+    // the hemisphere test of the code: local start time before local end time within the year
+    let north = rule_day(a.start, y) * 86400 + a.start_time < rule_day(a.end, y) * 86400 + a.end_time;
     match (a.std.off.cmp(&a.dst.off), north) {
         (std::cmp::Ordering::Equal, _) => "equal",
         (std::cmp::Ordering::Less, true) => "north.regular",
